@@ -364,3 +364,68 @@ STEP_OF_ORIGIN = {
     "c14_v2s_attr": 3, "c14_v2s_safe": 3, "c14_v2i_attr": 3, "c14_v2i_safe": 3,
     "write_seqs": 4, "write_json": 4, "write_db": 4,
 }
+
+
+# ------------------------------------------------- apps of ComposedAppLinks.tla (links_C14.py)
+from cogent3.app.typing import TabularType  # noqa: E402
+
+
+class LkError(Exception):
+    pass
+
+
+def _lk_add(seqs, mark):
+    data = seqs.to_dict()
+    data[f"n{len(data)}{mark}"] = "ACGT"
+    return make_unaligned_seqs(data, moltype="dna", info={"source": seqs.info.source})
+
+
+def lk_value(path):
+    """the value a loader makes of `path`, before any step has marked it"""
+    return make_unaligned_seqs({"id": "ACGT"}, moltype="dna", info={"source": str(path)})
+
+
+@define_app(app_type=LOADER)
+class lk_load:
+    """L"""
+
+    def main(self, path: IdentifierType) -> T:
+        Path(path).read_text()
+        return _lk_add(lk_value(path), "L")
+
+
+@define_app
+class lk_a:
+    """A"""
+
+    def main(self, seqs: UnalignedSeqsType) -> T:
+        return _lk_add(seqs, "A")
+
+
+@define_app
+class lk_p:
+    """P: returns sequences and nothing else; fails on a record called bad"""
+
+    def main(self, seqs: UnalignedSeqsType) -> UnalignedSeqsType:
+        if "bad" in Path(seqs.info.source).name:
+            raise LkError("bad record")
+        return _lk_add(seqs, "P")
+
+
+@define_app(skip_not_completed=False)
+class lk_r:
+    """R: opts in to receive NotCompleted and makes a value of it again"""
+
+    def main(self, val: SerialisableType) -> T:
+        if isinstance(val, NotCompleted):
+            data = {"id": "ACGT", f"n1recovered{val.origin}": "ACGT"}
+            return _lk_add(make_unaligned_seqs(data, moltype="dna", info={"source": val.source}), "R")
+        return _lk_add(val, "R")
+
+
+@define_app
+class lk_x:
+    """X: wants a table"""
+
+    def main(self, table: TabularType) -> TabularType:
+        return table
